@@ -126,6 +126,7 @@ type c12Seq struct {
 	OwnerPtr bool    `json:"owner_ptr"` // slice of pointers
 	Pre      []int   `json:"pre"`       // target keys existing before the sequence
 	By       []int   `json:"by"`        // targets linked to the bystander owner u3 before the sequence
+	Own      []int   `json:"own"`       // targets linked to the operated owner u1 before the sequence (u1 is then loaded with Preload)
 	Ops      []c12Op `json:"ops"`
 }
 
@@ -311,22 +312,25 @@ func c12Setup(db *gorm.DB, k *c12Kind, s c12Seq) {
 	for i := 1; i <= 3; i++ {
 		ex("INSERT INTO a_users (id, name) VALUES (?, ?)", i, fmt.Sprint("u", i))
 	}
-	by := map[int]bool{}
+	by := map[int]int{}
 	for _, b := range s.By {
-		by[b] = true
+		by[b] = c12Bystander
+	}
+	for _, b := range s.Own {
+		by[b] = c12Owner1
 	}
 	for _, p := range append(append([]int{}, s.Pre...), c12Sentinel) {
 		name := fmt.Sprint("t", p)
 		switch k.Class {
 		case "bt":
 			ex("INSERT INTO "+k.Table+" (id, name) VALUES (?, ?)", p, name)
-			if by[p] {
-				ex("UPDATE a_users SET "+k.FK+" = ? WHERE id = ?", p, c12Bystander)
+			if by[p] != 0 {
+				ex("UPDATE a_users SET "+k.FK+" = ? WHERE id = ?", p, by[p])
 			}
 		case "fk":
 			var fk interface{}
-			if by[p] {
-				fk = c12Bystander
+			if by[p] != 0 {
+				fk = by[p]
 			}
 			if k.Poly {
 				ex("INSERT INTO "+k.Table+" (id, name, "+k.FK+", holder_type) VALUES (?, ?, ?, ?)", p, name, fk, "a_users")
@@ -335,8 +339,8 @@ func c12Setup(db *gorm.DB, k *c12Kind, s c12Seq) {
 			}
 		default:
 			ex("INSERT INTO "+k.Table+" (id, name) VALUES (?, ?)", p, name)
-			if by[p] {
-				ex("INSERT INTO "+k.Join+" ("+k.JOwner+", "+k.JTgt+") VALUES (?, ?)", c12Bystander, p)
+			if by[p] != 0 {
+				ex("INSERT INTO "+k.Join+" ("+k.JOwner+", "+k.JTgt+") VALUES (?, ?)", by[p], p)
 			}
 		}
 	}
@@ -423,6 +427,13 @@ func c12ExecTrace(s c12Seq, trace func(step int, evs []Event)) []c12Obs {
 	var owners []*AUser
 	var model interface{}
 	vals := []AUser{{ID: c12Owner1, Name: "u1"}, {ID: c12Owner2, Name: "u2"}}
+	if len(s.Own) > 0 {
+		// u1 already has links: load the operated records with the relation preloaded (in-memory field = stored links)
+		vals = nil
+		if err := db.Preload(k.Field).Order("id").Find(&vals, []int{c12Owner1, c12Owner2}).Error; err != nil || len(vals) != 2 {
+			panic(fmt.Sprint("preload of the operated owners failed: ", err))
+		}
+	}
 	switch {
 	case s.Owners <= 1:
 		owners = []*AUser{&vals[0]}
